@@ -65,6 +65,11 @@ def install() -> None:
         def _closed(self):
             return self.socket._closed
 
+        def pending(self):
+            """ssl.SSLSocket.pending(): decrypted bytes already buffered (code that feature-tests the TLS socket sees the same
+            surface as with the real class)."""
+            return self.sslobj.pending()
+
         def __init__(self, sock, ctx, server_hostname=None, suppress_ragged_eofs=True):
             base = W._base_socket(sock)
             base.tags["opaque"] = True
@@ -100,7 +105,7 @@ class _TlsChannel:
         self.tags = tp.chan.tags
 
     def peer_push(self, data: bytes, delay: float = 0.0, whole: bool = False, stray: bool = False) -> None:
-        self.tp.push_plain(data, delay)
+        self.tp.push_plain(data, delay, stray)
 
     def peer_eof(self, delay: float = 0.0) -> None:
         try:
@@ -139,19 +144,19 @@ class TlsPeer:
         self.world.tls_log.append(("sni", self.chan.sid, self.name, servername))
         return None
 
-    def flush(self, delay: float = 0.0) -> None:
+    def flush(self, delay: float = 0.0, stray: bool = False) -> None:
         buf = self.out.read()
         if buf:
-            self.chan.peer_push(buf, delay)
+            self.chan.peer_push(buf, delay, stray=stray)
 
-    def push_plain(self, data: bytes, delay: float = 0.0) -> None:
+    def push_plain(self, data: bytes, delay: float = 0.0, stray: bool = False) -> None:
         if not self.handshook:
             raise W.SeamError("plaintext push before the handshake completed")
         mv = memoryview(data)
         while mv:
             n = self.obj.write(mv[:16384])
             mv = mv[n:]
-        self.flush(delay)
+        self.flush(delay, stray)
 
     def on_data(self, data: bytes) -> None:
         if self.failed:
